@@ -44,6 +44,11 @@ def params(draw, tier):
     p["guess_conflict"] = draw(st.sampled_from([False, False, True]))
     p["lab_seeds"] = [draw(st.integers(0, 2 ** 32 - 1)) for _ in range(p["n_frames"])]
     p["relabel"] = draw(st.sampled_from([True, True, True, False]))
+    # (frames are keyed 0..n-1: ForSys itself - times_to_use - assumes that, so other keys are outside the input domain)
+    p["key0"] = 0
+    # with no user pairings at all, one and the same {frame: {}} object is given to a first solver object over an
+    # independently numbered copy of the series and then to the one under test
+    p["shared_empty_guess"] = draw(st.booleans())
     return p
 
 
@@ -148,12 +153,22 @@ def check_case(p, ctx):
         guess[k] = g
     centres = {k: frame_centre(S.R[k]) for k in range(n)}
     kw_cm = {} if (not p["cm"] and p["lab_seeds"][0] % 2) else {"cm": p["cm"]}     # cm=False is the default
-    fsys = call(fs.ForSys, S.frames, initial_guess={k: dict(v) for k, v in guess.items()}, **kw_cm)
+    k0 = p.get("key0", 0)
+    frames_in = {k + k0: S.frames[k] for k in range(n)}
+    guess_in = {k + k0: dict(v) for k, v in guess.items()}
+    if p.get("shared_empty_guess") and not any(guess.values()):
+        q2 = dict(p, lab_seeds=[sd ^ 0x5A5A5A5A for sd in p["lab_seeds"]], relabel=True)
+        S2, _, _ = build_series(q2)
+        call(fs.ForSys, {k + k0: S2.frames[k] for k in range(n)}, initial_guess=guess_in, **kw_cm)
+        ctx.count("empty-guess-object-shared-with-an-earlier-solver")
+    fsys = call(fs.ForSys, frames_in, initial_guess=guess_in, **kw_cm)
+    if k0:
+        ctx.count("frames-keyed-from-3")
     mesh = core.mesh_of(fsys)
     moved_frac = []
     conditional = True
     for k in range(n - 1):
-        m = mesh.mapping.get(k)
+        m = mesh.mapping.get(k + k0)
         ok, ratio, bound, disp = within_bounds(S, js, k, p["cm"], centres)
         if m is None:
             if ok:
@@ -201,11 +216,11 @@ def check_case(p, ctx):
             for t1 in range(t0 + 1, n):
                 for j in js[: max(3, len(js))]:
                     a = S.vid(t0, j)
-                    f = call(mesh.get_point_id_by_map, a, t0, t1)
+                    f = call(mesh.get_point_id_by_map, a, t0 + k0, t1 + k0)
                     if f != S.vid(t1, j):
                         return ctx.violation("forward-chain", p, observed=f, expected=S.vid(t1, j),
                                              detail={"t0": t0, "t1": t1})
-                    bck = call(mesh.get_point_id_by_map, f, t1, t0)
+                    bck = call(mesh.get_point_id_by_map, f, t1 + k0, t0 + k0)
                     if bck != a:
                         return ctx.violation("forward-backward", p, observed=bck, expected=a,
                                              detail={"t0": t0, "t1": t1})
